@@ -37,6 +37,12 @@ Clauses(t) ==
      <<"order",          "P", OrderOK(Ord(t), names, t.req, t.cps)>>,
      <<"order-model",    "M", Ord(t) = MakeOrder(names, t.req, t.cps)>>,
      <<"numGlyphs",      "P", t.ret.maxp.numGlyphs = Len(Ord(t))>>,
+     \* every glyph-derived maxp count equals the same count taken over the stored glyf data (points, contours, composite
+     \* points / contours, component elements / depth, largest glyph program)
+     <<"maxp-matches-glyph-data", "P", Has(t.ret, "maxpTable") => t.ret.maxpTable = t.ret.maxpStored>>,
+     \* glyph programs given in the source (with the hash of the compiled glyph) are stored, byte for byte in length
+     <<"glyph-programs-stored", "P", Has(t.ret, "programs") =>
+                                       \A n \in DOMAIN t.ret.programs : t.ret.programs[n] = t.ttInstr[n]>>,
      <<"cmap",           "P", CmapOK(t.ret.cmaps, Uni(t), names)>>,
      <<"uvs",            "P", UvsOK(t.uvs, t.ret.uvs, Uni(t), names)>>,
      <<"name-list",      "P", t.ret.nameList = Ord(t)>>,
